@@ -168,9 +168,12 @@ Step(m, e) ==
          <<m, IF e.err = "" THEN ByCause(e.proc, M, LAMBDA id : FCause(m, e.proc, id)) ELSE {}>>
     [] e.ev = "Ret" /\ e.op = "SD" ->
          LET M == Missing(m, Get(m.snap, e.proc, {}))
-             stoppedExit == IF m.cfg.hooks THEN Get(m.early, e.proc, "no") # "no" ELSE e.proc # m.firstSD IN
+             \* hook-free: the order of the Call lines is not the order of the swaps -- with several Shutdown calls begun nobody
+             \* can tell which one did the work, so none of them counts as the full one (the exporter's own Shutdown still does)
+             sole == e.proc = m.firstSD /\ m.sdCalls = 1
+             stoppedExit == IF m.cfg.hooks THEN Get(m.early, e.proc, "no") # "no" ELSE ~sole IN
          <<[m EXCEPT !.shutRet = IF e.err # "" THEN @ ELSE IF ~stoppedExit THEN "full" ELSE IF @ = "no" THEN "early" ELSE @],
-           IF e.err = "" THEN ByCause(e.proc, M, LAMBDA id : SCause(m, e.proc, id, e.proc = m.firstSD)) ELSE {}>>
+           IF e.err = "" THEN ByCause(e.proc, M, LAMBDA id : SCause(m, e.proc, id, sole)) ELSE {}>>
     [] e.ev = "LogDropped" ->
          <<[m EXCEPT !.logged = @ + e.n],
            IF m.cfg.hooks /\ m.logged + e.n > Cardinality(m.overwritten)
